@@ -1,6 +1,8 @@
 package main
 
 import (
+	"strings"
+	"runtime/debug"
 	"encoding/json"
 	"fmt"
 )
@@ -85,7 +87,15 @@ func extractHists(v interface{}) []hist {
 func (c *Ctx) guard(rel string, desc interface{}, fn func()) {
 	defer func() {
 		if r := recover(); r != nil {
-			c.Fail("oracle", rel, desc, fmt.Sprintf("the implementation panicked: %v", r), "")
+			// where: the innermost excelize frame, if any (a panic inside the harness itself shows harness frames only)
+			where := ""
+			for _, ln := range strings.Split(string(debug.Stack()), "\n") {
+				if strings.Contains(ln, "/repo/") && !strings.Contains(ln, "verif_hooks") {
+					where = " at " + strings.TrimSpace(strings.Split(ln, " +")[0])
+					break
+				}
+			}
+			c.Fail("oracle", rel, desc, fmt.Sprintf("the implementation panicked: %v%s", r, where), "")
 		}
 	}()
 	fn()
